@@ -423,7 +423,7 @@ def _brief(r):
 # ------------------------------------------------------------------ generators
 SCORES = list(SETUP_SEGS)
 ANALYZERS = ["max", "peak", "none"]
-EXCS = ["PvFault", "ValueError", "MemoryError", "KeyError", "RuntimeError", "OSError"]
+EXCS = ["PvFault", "ValueError", "MemoryError", "KeyError", "RuntimeError", "OSError", "PvSilentFault"]
 
 
 def _base(rng, parallel=False):
